@@ -67,6 +67,7 @@ def showIStep : IStep → String
   | .shrinkDecision l r => s!"shrink {l} {r}"
   | .expandDecision l r => s!"expand {l} {r}"
   | .clearCaughtUp l r => s!"clear {l} {r}"
+  | .clearSeen l r => s!"unseen {l} {r}"
   | .electDecision c => s!"elect {c}"
   | .raftCommit op => s!"raft {showOp op}"
   | .applyNext s => s!"next {s}"
@@ -90,6 +91,7 @@ def parseIStep (toks : List String) : Option IStep :=
   | ["shrink", l, r] => do pure (.shrinkDecision (← l.toNat?) (← r.toNat?))
   | ["expand", l, r] => do pure (.expandDecision (← l.toNat?) (← r.toNat?))
   | ["clear", l, r] => do pure (.clearCaughtUp (← l.toNat?) (← r.toNat?))
+  | ["unseen", l, r] => do pure (.clearSeen (← l.toNat?) (← r.toNat?))
   | ["elect", c] => c.toNat?.map .electDecision
   | ["raft", op] => (parseOp op).map .raftCommit
   | ["next", s] => s.toNat?.map .applyNext
@@ -124,6 +126,7 @@ def leanIStep : IStep → String
   | .shrinkDecision l r => s!".shrinkDecision {l} {r}"
   | .expandDecision l r => s!".expandDecision {l} {r}"
   | .clearCaughtUp l r => s!".clearCaughtUp {l} {r}"
+  | .clearSeen l r => s!".clearSeen {l} {r}"
   | .electDecision c => s!".electDecision {c}"
   | .raftCommit op => s!".raftCommit {leanOp op}"
   | .applyNext s => s!".applyNext {s}"
@@ -152,7 +155,7 @@ def showNet : Net → String
 
 /-- Glue state of one server (everything but the log). -/
 def showGlue (sv : Srv) : String :=
-  s!"up={if sv.up then 1 else 0} role={showRole sv.role} ldr={sv.leader} ep={sv.leaderEpoch} app={sv.applied} isr={showMap sv.isrOff} cc={sv.commitCheck} cu={showMap sv.caughtUp} q={",".intercalate (sv.queue.map fun a => s!"{a.offset}/{a.mid}")} rec={if sv.recovered then 1 else 0}"
+  s!"up={if sv.up then 1 else 0} role={showRole sv.role} ldr={sv.leader} ep={sv.leaderEpoch} app={sv.applied} isr={showMap sv.isrOff} cc={sv.commitCheck} cu={showMap sv.caughtUp} sn={",".intercalate (sv.seen.map toString)} q={",".intercalate (sv.queue.map fun a => s!"{a.offset}/{a.mid}")} rec={if sv.recovered then 1 else 0}"
 
 def showSrv (sv : Srv) : String := showGlue sv ++ " log{" ++ showState sv.log ++ "}"
 
@@ -390,7 +393,7 @@ def protoStep (ps : ProtoSt) (toks : List String) : ProtoSt × String :=
           ({ ps with st := post, ghost := g, msgs := msgs, hist := i :: ps.hist },
            (if okOps then "ok " else "ops-mismatch ") ++ opsTxt ++ " ## " ++ glue ++ " ## acks=" ++ acks ++ " ## viol=" ++ ",".intercalate viol)
   | ["state"] => (ps, "ok " ++ showProtoState ps.cfg ps.st)
-  | ["facts"] => (ps, s!"ok isrReset={if resetsIsrOnLead ps.cfg then 1 else 0}")
+  | ["facts"] => (ps, s!"ok isrReset={if resetsIsrOnLead ps.cfg then 1 else 0} fetchEpoch={if Gen.Protocol.fetchCarriesEpoch then 1 else 0} tick={reprStr Gen.Protocol.tickOutOfSync} reject={reprStr Gen.Protocol.replReqReject}")
   | ["enabled", name] =>
     match boundsNamed name with
     | none => (ps, "bad-op")
